@@ -153,13 +153,16 @@ func StringKeyedMap(data any) (map[string]any, bool) {
 // StructToMap converts a struct to a map using JSON tags for keys.
 // Nested structs are recursively converted to maps as well.
 func StructToMap(data any) map[string]any {
-	return structToMap(data, map[uintptr]bool{})
+	return structToMap(data, map[uintptr]bool{}, map[uintptr]map[string]any{})
 }
 
 // structToMap converts a struct to a map. The visiting set holds the pointers on the
 // current conversion path, so that cyclic data (a struct pointing back to itself)
-// ends the recursion with an empty map instead of recursing without end.
-func structToMap(data any, visiting map[uintptr]bool) map[string]any {
+// ends the recursion with an empty map instead of recursing without end. The done
+// map holds what has been converted already: a struct that is reached over several
+// paths (two fields pointing at one node) is converted once, not once per path -
+// a chain of n such nodes has 2^n paths.
+func structToMap(data any, visiting map[uintptr]bool, done map[uintptr]map[string]any) map[string]any {
 	result := make(map[string]any)
 	if data == nil {
 		return result
@@ -175,8 +178,12 @@ func structToMap(data any, visiting map[uintptr]bool) map[string]any {
 		if visiting[ptr] {
 			return result
 		}
+		if converted, ok := done[ptr]; ok {
+			return converted
+		}
 		visiting[ptr] = true
 		defer delete(visiting, ptr)
+		defer func() { done[ptr] = result }()
 		rv = rv.Elem()
 	}
 
@@ -207,7 +214,7 @@ func structToMap(data any, visiting map[uintptr]bool) map[string]any {
 
 		// Recursively convert nested structs
 		if hasExportedFields(fv.Type()) {
-			fieldValue = structToMap(fieldValue, visiting)
+			fieldValue = structToMap(fieldValue, visiting, done)
 		}
 
 		result[tagName] = fieldValue
